@@ -169,6 +169,15 @@ def step (d : DState) (l : Line) : DState × List Verdict :=
       else
         (d, [.monitor "query_panics" err])
     | _, _, _, _ => (d, [.badline "query fields"])
+  else if l.op == "cquery" then
+    -- unfiltered, unbounded listings racing with formations: every single call must report a total equal
+    -- to the length of the page it returns (count and page are one snapshot of the store)
+    match getNat l.obs "calls", getNat l.obs "torn" with
+    | some calls, some torn =>
+      let d := { d with queries := d.queries + calls, lastCrit := "" }
+      if torn > 0 then (d, [.monitor "count_eq_matches/concurrent" s!"torn={torn}/{calls},worst={(getStr l.obs "worst").getD "?"}"])
+      else (d, [])
+    | _, _ => (d, [.badline "cquery fields"])
   else (d, [.badline "unknown op"])
 
 def stats (d : DState) : String :=
